@@ -8,6 +8,7 @@
 -/
 import FcProofs.Lemmas.Fuzzy
 import FcProofs.Lemmas.SourceFormula
+import FcProofs.Lemmas.Slack
 namespace Fc
 open Spec
 
@@ -179,6 +180,40 @@ theorem C01_boundary (a b : Int) (rel abs : Nat) (habs : rndMag f64 abs 0 = some
     docFormula f64 a b rel abs = true :=
   C01_exact_implies_float a b rel abs habs (by unfold exactFormula; simp [h])
 
+/-- **C01 (float ⇒ exact up to one rounding on each side).**  If the documented formula holds as
+    evaluated in binary64 and the threshold product is finite, then it holds in exact arithmetic
+    up to the explicit slack  `|a-b|·(2^53 − 1) ≤ max(rel·max(|a|,|b|)·(2^53 + 1) + 2^52 quanta,
+    abs·2^53)`  — i.e. relative 2^-53 on either side plus half the smallest subnormal.
+    (Constants: 9007199254740991 = 2^53 − 1, …992 = 2^53, …993 = 2^53 + 1, 4503599627370496 = 2^52;
+    all quantities scaled by 2^UNIT to stay in ℕ.)  Together with `C01_exact_implies_float`
+    this pins the verdict to the exact inequality on both sides of the boundary. -/
+theorem C01_float_implies_exact_slack (a b : Int) (rel abs : Nat)
+    (hfin : rndMag f64 (max a.natAbs b.natAbs * rel) UNIT ≠ none)
+    (h : docFormula f64 a b rel abs = true) :
+    (b - a).natAbs * 2 ^ UNIT * 9007199254740991 ≤
+      max (max a.natAbs b.natAbs * rel * 9007199254740993 + 2 ^ UNIT * 4503599627370496)
+          (abs * (2 ^ UNIT * 9007199254740992)) := by
+  unfold docFormula at h
+  have hp : rndMag f64 (max a.natAbs b.natAbs * rel) UNIT = some (rndRaw f64 (max a.natAbs b.natAbs * rel) UNIT) := by
+    unfold rndMag at hfin ⊢
+    simp only at hfin ⊢
+    split
+    · rename_i hov; simp [hov] at hfin
+    · rfl
+  rw [hp] at h
+  have hd : rndMag f64 (b - a).natAbs 0 = some (rndRaw f64 (b - a).natAbs 0) := by
+    unfold rndMag
+    simp only
+    split
+    · rename_i hov
+      unfold rndMag at h
+      simp [hov, maxInf, leInf] at h
+    · rfl
+  rw [hd] at h
+  have h2 : rndRaw f64 (b - a).natAbs 0 ≤ max (rndRaw f64 (max a.natAbs b.natAbs * rel) UNIT) abs := by
+    simpa [maxInf, leInf] using h
+  exact slack_core _ _ _ _ _ (2 ^ UNIT) (rnd_lower_f64 _) (rnd_upper_f64 _) h2
+
 /-- **C01 (tie to the source text).**  The body of `_numpy_utils.fuzzy_equal` as *translated from
     the current source text on this run* (`Fc.Gen.fuzzyEqualBody`, FcGen/Tables.lean), evaluated
     with binary64 lane semantics on any finite operands and tolerances, is the documented formula —
@@ -197,8 +232,7 @@ theorem C01_source_formula (a b : Int) (rel abs : Nat) :
     by_cases h : p ≤ abs <;> simp [h]
   · rename_i d p
     by_cases h : p ≤ abs
-    · simp [h, Nat.max_eq_right h]
-    · have h' : abs ≤ p := by omega
-      simp [h, Nat.max_eq_left h']
+    · simp [h] <;> (intros; omega)
+    · simp [h] <;> (intros; omega)
 
 end Fc
